@@ -578,6 +578,12 @@ func (s *Store[K, V]) removeEntry(entry *Entry[K, V], reason RemoveReason) {
 		// entry might updated already
 		// update expire filed are protected by shard mutex
 		if entry.expire.Load() > s.timerwheel.clock.NowNano() {
+			// The deadline was extended (under the shard lock) after the caller saw
+			// the entry as expired, so the entry stays. Take back the removed mark -
+			// otherwise every later event for the entry is ignored - and put the entry
+			// back into the wheel, which the caller has taken it out of.
+			entry.flag.SetRemoved(false)
+			s.timerwheel.schedule(entry)
 			return
 		}
 	}
@@ -685,7 +691,11 @@ func (s *Store[K, V]) sinkWrite(item WriteBufItem[K, V]) {
 		if expire := entry.expire.Load(); expire != 0 {
 			if expire <= s.timerwheel.clock.NowNano() {
 				s.removeEntry(entry, EXPIRED)
-				return
+				// removeEntry leaves the entry alone when its deadline was extended in
+				// the meantime: then it is a live entry and must still reach the policy
+				if entry.flag.IsRemoved() {
+					return
+				}
 			} else {
 				s.timerwheel.schedule(entry)
 			}
